@@ -86,7 +86,7 @@ def num(v):
 CURVES = (
     [["L", "P.%s#%s" % (n, v)] for v in ("int", "frac", "float") for n in ("triA", "L", "U")]
     + [["V", [["617/5000", "1/5"], ["37071/10000", "13333/10000"], ["3/2", "17/4"]]], ["V", [[0, 0], [2, 4], [5, 1]]]]
-    + [["L", "Q.c4"], ["L", "Q.c8"], ["L", "Q.lens"], ["L", "Q.blob"], ["L", "Q.rsq"], ["L", "Q.c5@cw"]]
+    + [["L", "Q.c4"], ["L", "Q.c8"], ["L", "Q.lens"], ["L", "Q.blob"], ["L", "Q.rsq"], ["L", "Q.c5@cw"], ["L", "Q.elev"], ["L", "Q.tear"]]
 )
 
 
